@@ -78,6 +78,10 @@ MUTANTS = [
     ('m50', 'C13', 'break', 'skoolkit/loadtracer.py', "and self.block_data_index <= self.state[1] < self.max_index:", "and self.block_data_index < self.state[1] < self.max_index:", 'opcodes:00'),
     ('m51', 'C13', 'break', 'skoolkit/loadtracer.py', "            self.state[1] = self.state[3] + 1", "            self.state[1] = self.state[3] + 2", 'opcodes:00'),
     ('m52', 'C13', 'break', 'skoolkit/loadtracer.py', "        while self.block_index < len(self.blocks) and self.block_data_index <=", "        while self.block_data_index <=", 'opcodes:00'),
+    ('m53', 'C09', 'break', 'skoolkit/snapshot.py', "range(index.start, min(index.stop, 0x10000), index.step or 1)]", "range(index.start, min(index.stop, 0xFFFF), index.step or 1)]", None),
+    ('m54', 'C15', 'break', 'skoolkit/sna2img.py', "                    udg.attr &= 127", "                    udg.attr &= 63", None),
+    ('m55', 'C06', 'break', 'skoolkit/simulator.py', "                    if registers[25] < next_int + int_active:\n                        if registers[26]:\n                            self.accept_interrupt(registers, memory, pc)\n                    else:",
+     "                    if registers[26] and registers[25] < next_int + int_active:\n                        self.accept_interrupt(registers, memory, pc)\n                    else:", 'opcodes:00'),
     # harmless edits: must not raise an alarm
     ('h01', 'C05', 'harmless', 'skoolkit/simulator.py',
      "            pcn = registers[24] + 1\n            registers[:2] = af[registers[0]][memory[pcn % 65536]]\n            registers[15] = R1[registers[15]] # R\n            registers[25] += 7 # T-states\n            registers[24] = (pcn + 1) % 65536 # PC",
